@@ -354,8 +354,8 @@ impl FixtureDatabase {
 @rename count vp_count
 @nocontinue 1
 @closure 1 |d: &&FixtureDefinition| -> (b: bool) ensures b == (pbv(&d.file_path) == pv(file_path))
-@closure 2 |d: &&FixtureDefinition| -> (b: bool) ensures b == (d.is_plugin && !d.is_third_party)
-@closure 3 |d: &&FixtureDefinition| -> (b: bool) ensures b == d.is_third_party
+@closure 2 |d: &&FixtureDefinition| -> (b: bool) ensures b == x_ws_plugin(*d)
+@closure 3 |d: &&FixtureDefinition| -> (b: bool) ensures b == x_third(*d)
 @sig
     ensures opt_dv(r) == op_resolve_ff(bucket(self.defs(), fixture_name@), pv(file_path), canon_pv(pv(file_path))),
 @after definitions 1
@@ -398,7 +398,7 @@ impl FixtureDatabase {
     assert(first_match(ds, p_same(file, fs_true())) is None);
 @return 3
     let s = dsx.as_ref();
-    let i = choose|i: int| 0 <= i < s.len() && s[i] == def && (forall|j: int| 0 <= j < i ==> !((#[trigger] s[j]).is_plugin && !s[j].is_third_party));
+    let i = choose|i: int| 0 <= i < s.len() && s[i] == def && (forall|j: int| 0 <= j < i ==> !x_ws_plugin(#[trigger] s[j]));
     assert forall|j: int| 0 <= j < i implies !p_plugin(fs_true())(#[trigger] ds[j]) by { let y = s[j]; }
     assert(ds[i] == dv(def));
     lemma_first_idx(ds, p_plugin(fs_true()), i);
@@ -410,7 +410,7 @@ impl FixtureDatabase {
     }
 @return 4
     let s = dsx.as_ref();
-    let i = choose|i: int| 0 <= i < s.len() && s[i] == def && (forall|j: int| 0 <= j < i ==> !(#[trigger] s[j]).is_third_party);
+    let i = choose|i: int| 0 <= i < s.len() && s[i] == def && (forall|j: int| 0 <= j < i ==> !x_third(#[trigger] s[j]));
     assert forall|j: int| 0 <= j < i implies !p_third(fs_true())(#[trigger] ds[j]) by { let y = s[j]; }
     assert(ds[i] == dv(def));
     lemma_first_idx(ds, p_third(fs_true()), i);
